@@ -282,6 +282,8 @@ func checkC08(w *World, r *Report) {
 	c08Base85(w, r)
 	c08WrittenLen(w, r)
 	c08LengthAlgebra(w, r)
+	r.Rule("R08.10", "no codec takes a single Read of a stream decoder for the whole input", 1)
+	ruleSingleReadIsNotFull(w, r, "R08.10", func(p string) bool { return strings.HasSuffix(p, "/internal/util/enc") || strings.HasPrefix(p, modPath+"/internal/streams/dns") })
 	c08FreshResults(w, r, codecs)
 	c08Ratios(w, r, codecs)
 	c08DecodeRoom(w, r)
